@@ -1593,3 +1593,59 @@ pub fn xzblk_header_five_byte_filter_id() {
     vcover!(r.is_ok(), "five_byte_id_ok");
     forget(r);
 }
+
+
+//@ harness props=C03,C12,C07 tier=quick unwind=6 unwindset=update_table:300,ref_crc32.0:14,ref_crc32.1:300,default_read_exact:10,decompress:4,scripted_block_header:5,spec_fill:8200,RecSink.*write_all:6 mem_gb=12 timeout=900 native=no
+//@ bound: read_block with the header parser replaced by its contract: 12-byte header, one uncompressed LZMA2 chunk of 2 symbolic bytes, no check, output sink accepting ONE byte per write call: the whole block content reaches the sink
+#[cfg_attr(kani, kani::proof)]
+#[cfg_attr(kani, kani::stub(std::fmt::format, crate::verif_common::stub_format))]
+#[cfg_attr(kani, kani::stub(std::io::Error::is_interrupted, crate::verif_common::stub_not_interrupted))]
+#[cfg_attr(kani, kani::stub(crate::decode::xz::read_block_header, crate::decode::xz::verif_h::scripted_block_header))]
+#[cfg_attr(kani, kani::stub(crate::decode::lzma::DecoderState::new, crate::decode::stream::verif_h::new_scripted_lit))]
+#[cfg_attr(kani, kani::stub(crate::decode::lzbuffer::LzAccumBuffer::from_stream, crate::decode::lzbuffer::verif_h::accum_from_stream_with_capacity))]
+pub fn xzblk_read_block_short_sink() {
+    let mut t = Tape::<16>::new();
+    let d0 = t.u8();
+    let d1 = t.u8();
+    BH_PACKED.store(u64::MAX, Ordering::Relaxed);
+    BH_UNPACKED.store(u64::MAX, Ordering::Relaxed);
+    BH_PRESENT.store(0, Ordering::Relaxed);
+    let mut f = [0u8; 32];
+    f[0] = 3;
+    f[1] = 0x00;
+    f[2] = 0x21;
+    f[3] = 0x01;
+    f[4] = 0x16;
+    let c = ref_crc32(&f[0..12]).to_le_bytes();
+    f[12] = c[0];
+    f[13] = c[1];
+    f[14] = c[2];
+    f[15] = c[3];
+    f[16] = 1;
+    f[17] = 0;
+    f[18] = 1;
+    f[19] = d0;
+    f[20] = d1;
+    f[21] = 0;
+    // 12 + 4 + 6 = 22 bytes -> 2 bytes of block padding, no check
+    let total = 24;
+    f[total] = 0xEE;
+    let mut rd = ArrReader::<32>::new(f, total + 1);
+    let mut sink = RecSink::<4>::new();
+    sink.short = 1;
+    let mut records: Vec<Record> = Vec::with_capacity(2);
+    let (ok, counted) = {
+        let mut ci = util::CountBufRead::new(&mut rd);
+        let hb = ci.read_u8();
+        forget(hb);
+        let r = read_block(&mut ci, &mut sink, CheckMethod::None, &mut records, 3);
+        let ok = r.is_ok();
+        forget(r);
+        (ok, ci.count())
+    };
+    vassert!(ok, "read_block: a well-formed block decodes into a sink that accepts partial writes");
+    vassert!(sink.len == 2 && sink.buf[0] == d0 && sink.buf[1] == d1, "read_block: the block's content is written to the output in full, also when the sink accepts only part of each write");
+    vassert!(counted == total && rd.pos == total, "read_block: consumes header, payload, padding and check, nothing more");
+    vcover!(true, "end_reached");
+    forget(records);
+}
